@@ -256,3 +256,9 @@ pub fn transform_varblocks(
         );
     }
 }
+
+/// Verification hook H5: the per-type dispatch of the generic path on one coefficient block.
+#[cfg(jxl_oxide_verif)]
+pub fn verif_transform(coeff: &mut MutableSubgrid<'_>, dct_select: TransformType) {
+    transform(coeff, dct_select);
+}
